@@ -1,5 +1,85 @@
-import XpmVerif.Proofs.IdentPerm
+import XpmVerif.Proofs.IdentNeutral
+/-! C02 — the identifier ignores everything documented as outside the signature.
+    All statements are about the specification `rawAt`/`rawId`/`fullId` of Model/Ident.lean, for every
+    hash function.  Tags, explicit/token dependencies, launcher, workspace and run mode are not inputs of
+    the model at all (the correspondence check shows the real identifier is a function of the model's
+    inputs only), so they are neutral by construction. -/
 namespace XpmVerif.C02
-open XpmVerif.Ident
-theorem placeholder_trivial : True := trivial
+open XpmVerif.Ident List
+
+/-- **Meta / Option / Path parameters** (`ignored`): whatever their value (unless it is a configuration
+    forced in with `meta = False`), they contribute nothing to the stream. -/
+theorem ignored_parameter_neutral (cfg : Nat → List Nat) (mt : Nat → Option Bool) (a : Arg) (hi : a.ignored = true)
+    (hv : ∀ n, a.value = .ref n → mt n ≠ some false) : argStream cfg mt a = [] :=
+  argStream_of_not_included a (ignored_excluded mt a hi hv)
+
+/-- **generated (path) parameters** contribute nothing. -/
+theorem generated_parameter_neutral (cfg : Nat → List Nat) (mt : Nat → Option Bool) (a : Arg) (hg : a.generator = true) :
+    argStream cfg mt a = [] :=
+  argStream_of_not_included a (generator_excluded mt a hg)
+
+/-- **a parameter explicitly set to its default** contributes nothing (Python `==` after removing meta members). -/
+theorem default_valued_parameter_neutral (cfg : Nat → List Nat) (mt : Nat → Option Bool) (a : Arg) (d : Val)
+    (hc : a.constant = false) (hd : a.default = some d) (he : pyEq d (removeMeta mt a.value) = true) :
+    argStream cfg mt a = [] :=
+  argStream_of_not_included a (default_excluded mt a d hc hd he)
+
+/-- **an optional left unset** contributes nothing. -/
+theorem unset_optional_neutral (cfg : Nat → List Nat) (mt : Nat → Option Bool) (a : Arg) (hc : a.constant = false)
+    (hr : a.required = false) (hd : a.default = none) (hv : a.value = .none) : argStream cfg mt a = [] :=
+  argStream_of_not_included a (unset_optional_excluded mt a hc hr hd hv)
+
+/-- **a sub-configuration flagged as meta** given as a parameter value contributes nothing … -/
+theorem meta_subconfiguration_neutral (cfg : Nat → List Nat) (mt : Nat → Option Bool) (a : Arg) (n : Nat)
+    (hv : a.value = .ref n) (hm : mt n = some true) : argStream cfg mt a = [] :=
+  argStream_of_not_included a (meta_value_excluded mt a n hv hm)
+
+/-- … **also as a list element** (at any position) … -/
+theorem meta_list_element_neutral (cfg : Nat → List Nat) (mt : Nat → Option Bool) (l1 l2 : List Val) (m : Nat)
+    (hm : mt m = some true) :
+    encVal cfg mt (.list (l1 ++ .ref m :: l2)) = encVal cfg mt (.list (l1 ++ l2)) :=
+  list_meta_member cfg mt l1 l2 m hm
+
+/-- … **or as a dict value** (at any insertion position). -/
+theorem meta_dict_value_neutral (cfg : Nat → List Nat) (mt : Nat → Option Bool) (k1 k2 : List (List Nat))
+    (l1 l2 : List Val) (k : List Nat) (m : Nat) (hl : k1.length = l1.length) (hm : mt m = some true) :
+    encVal cfg mt (.dict (k1 ++ k :: k2) (l1 ++ .ref m :: l2)) = encVal cfg mt (.dict (k1 ++ k2) (l1 ++ l2)) :=
+  dict_meta_member cfg mt k1 k2 l1 l2 k m hl hm
+
+/-- **adding a new defaulted / Meta / generated parameter to a class**: a node extended with an argument
+    that contributes nothing has the same stream (hence, by `neutral_edits_any_depth`, every identifier of
+    every existing configuration is unchanged). -/
+theorem added_parameter_neutral (cfg : Nat → List Nat) (mt : Nat → Option Bool) (self : Nat) (nd : Node) (a : Arg)
+    (ha : argStream cfg mt a = []) :
+    nodeStream cfg mt self { nd with args := a :: nd.args } = nodeStream cfg mt self nd :=
+  nodeStream_add_excluded cfg mt self nd a ha
+
+/-- **at any node and depth.** Two graphs with the same meta flags whose nodes have pointwise
+    stream-equivalent arguments (`ArgsRel`: same names, and every argument either unchanged or changed
+    between two states that contribute the same — e.g. nothing, by the lemmas above) give every node the
+    same raw identifier, for every hash function. -/
+theorem neutral_edits_any_depth {D : Type} (hc : HC D) (g g' : Graph) (hs : g.size = g'.size)
+    (hm : g.mt = g'.mt)
+    (h : ∀ n, (g.node n).typeId = (g'.node n).typeId ∧ (g.node n).task = (g'.node n).task ∧
+          ∀ cfg, ArgsRel cfg g.mt g'.mt (g.node n).args (g'.node n).args) (n : Nat) :
+    rawId hc g n = rawId hc g' n := by
+  unfold rawId; rw [hs]
+  apply rawAt_congr
+  intro k cfg
+  exact nodeStream_congr_args cfg g.mt g'.mt k _ _ (h k).1 (h k).2.1 ((h k).2.2 cfg)
+
+/-- the full identifier is a function of the raw identifiers of the node, of its collected pre-tasks and
+    of its init tasks. -/
+theorem full_identifier_congruence {D : Type} (hc : HC D) (g g' : Graph)
+    (hr : ∀ n, rawId hc g n = rawId hc g' n)
+    (n : Nat) (hp : collectPreTasks g n = collectPreTasks g' n) (hi : (g.node n).initTasks = (g'.node n).initTasks) :
+    fullId hc g n = fullId hc g' n := by
+  have hf : rawId hc g = rawId hc g' := funext hr
+  simp only [fullId, hp, hi, hf]
+
+/-- non-vacuity: a Meta argument with two different values, a defaulted argument set explicitly. -/
+example : argStream (fun _ => []) (fun _ => none) { name := [109], ignored := true, value := .int 5 } = [] := by decide
+example : argStream (fun _ => []) (fun _ => none) { name := [120], required := false, default := some (.int 3), value := .int 3 } = []
+    ∧ argStream (fun _ => []) (fun _ => none) { name := [120], required := false, default := some (.int 3), value := .int 4 } ≠ [] := by decide
+
 end XpmVerif.C02
